@@ -898,13 +898,30 @@ def pretty(defn):
     return defn
 
 
+def model_ctor_args():
+    """argument lists [(name, lean type)] of the constructors of the model's `inductive Atom` (Model/Atom.lean)"""
+    src = open(os.path.join(os.path.dirname(os.path.dirname(os.path.abspath(__file__))), "lean", "Qvnt", "Model", "Atom.lean")).read()
+    m = re.search(r"inductive Atom \(R : Type\) where\n((?:  \| .*\n)+)", src)
+    out = {}
+    for line in m.group(1).splitlines():
+        mm = re.match(r"  \| (\w+)(.*)", line)
+        args = []
+        for names, ty in re.findall(r"\(([^:()]+):\s*([^()]+)\)", mm.group(2)):
+            for n in names.split():
+                args.append((n, ty.strip()))
+        out[mm.group(1)] = args
+    return out
+
+
 def gen_atoms(problems):
     """per atomic-operator file: atomic_op, is_valid, acts_on, dgr, new. A function outside the subset is reported
     (UNSUPPORTED <file>: <file>::<fn>: ..) and replaced by a placeholder with its signature, so that the definitions
     and equalities that do not concern it still build"""
     out = []
+    model_args = model_ctor_args()
     for fname, variant, ctor in ATOMS:
         path = os.path.join(REPO, "src", "operator", "atomic", fname + ".rs")
+        toks = None
         try:
             toks = tokenize(open(path).read())
             fields = find_struct(toks, "Op")
@@ -916,8 +933,28 @@ def gen_atoms(problems):
                 if t not in TYMAP:
                     raise Unsupported(f"field type {t}")
                 ftys.append((n, TYMAP[t]))
+            if [LEANTY[t] for _, t in ftys] != [t for _, t in model_args[ctor]]:
+                raise Unsupported(f"fields ({', '.join(n + ': ' + LEANTY[t] for n, t in ftys)}) are not those of the model's Atom.{ctor} "
+                                  f"({', '.join(n + ': ' + t for n, t in model_args[ctor])})")
         except (Unsupported, OSError) as ex:
+            # the operator's record is not the one the model (and every other generated definition) is written for: all of
+            # its functions become placeholders with the model's signature, so that the rest of the file still builds
             problems.append(f"{fname}.rs: {fname}.rs::struct: {ex}")
+            mb = "".join(f" (s_{n} : {t})" for n, t in model_args[ctor])
+            for fn, sig, stub in (("atomic_op", f"def {fname}_op{mb} (ψ : State R) (idx : Nat) : Cx R", "ψ idx"),
+                                  ("is_valid", f"def {fname}_isValid{mb} : Bool", "true"),
+                                  ("acts_on", f"def {fname}_actsOn{mb} : Nat", "0"),
+                                  ("dgr", f"def {fname}_dgr{mb} : Atom R", "Atom.id")):
+                problems.append(f"{fname}.rs: {fname}.rs::{fn}: not translated (struct Op differs from the model's record)")
+                out.append(f"/-- `{fname}.rs`: `{fn}` — NOT TRANSLATED (struct Op differs from the model's record): placeholder -/\n{sig} :=\n  {stub}\n")
+            try:
+                f = find_fn(toks, "new") if toks else None
+            except Unsupported:
+                f = None
+            if f is not None and all(ty in TYMAP for _, _, ty in f[0]):
+                b2 = "".join(f" ({lean_name(n)} : {LEANTY[TYMAP[ty]]})" for n, _, ty in f[0])
+                problems.append(f"{fname}.rs: {fname}.rs::new: not translated (struct Op differs from the model's record)")
+                out.append(f"/-- `{fname}.rs`: `new` — NOT TRANSLATED: placeholder -/\ndef {fname}_new{b2} : Atom R :=\n  Atom.id\n")
             continue
         sf = {n: ("s_" + n, t) for n, t in ftys}
         binder = "".join(f" (s_{n} : {LEANTY[t]})" for n, t in ftys)
